@@ -3,7 +3,15 @@
 
 Monitors: the real ALMSolver over every shipped stack on generated polynomial problems; on
 `Converged` the returned (x, y) is read as exact rationals and the three KKT residuals are
-recomputed from f, ∇f, g, ∇g·y and the two boxes alone.
+recomputed from f, ∇f, g, ∇g·y and the two boxes alone.  On EVERY run with finite outputs (whatever
+the status: the utility is a pure function of (x, y)) the four numbers of alpaqa::compute_kkt_error are
+compared with their exact recomputation: stationarity ‖Π_C(x − ∇L) − x‖∞, constr_violation
+‖g − Π_D g‖∞, complementarity max_j |y_j (g_j − Π_D(g)_j)|, bounds_violation ‖Π_C x − x‖∞
+(Lean: Props/C01.kktError_sound over the generated Gen/C01.computeKktError).
+
+Stacks: PANOC / ZeroFPR × {L-BFGS, structured L-BFGS, Anderson, no-op, StructuredNewton (dense ∇²ψ),
+ConvexNewton (dense ∇²L; m = 0 and convex only — the direction rejects general constraints)},
+PANTR × Newton-TR (finite differences and exact ∇²ψ·v), FISTA.
 """
 import math
 import os
@@ -17,7 +25,13 @@ from common import f2h, h2f
 
 INF = float('inf')
 STACKS = ['panoc-lbfgs', 'panoc-slbfgs', 'panoc-anderson', 'panoc-noop', 'zerofpr-lbfgs',
-          'zerofpr-slbfgs', 'zerofpr-anderson', 'zerofpr-noop', 'pantr-newtontr', 'fista']
+          'zerofpr-slbfgs', 'zerofpr-anderson', 'zerofpr-noop', 'pantr-newtontr', 'fista',
+          'panoc-snewton', 'zerofpr-snewton', 'panoc-cnewton', 'zerofpr-cnewton', 'pantr-newtontr']
+COUNTS = {}
+
+
+def bump(k, n=1):
+    COUNTS[k] = COUNTS.get(k, 0) + n
 
 
 def build_alm_harness():
@@ -66,13 +80,18 @@ def gen_feasible_problem(rng, convex=None, n=None, m=None):
 def gen_alm_op(rng, stack=None, **over):
     stack = stack or rng.choice(STACKS)
     convex = rng.random() < 0.7
-    p = gen_feasible_problem(rng, convex=convex)
+    cnewton = stack.endswith('-cnewton')
+    if cnewton:
+        # ConvexNewtonDirection::initialize throws for m ≠ 0; its Cholesky needs ∇²f ≻ 0
+        p = gen_feasible_problem(rng, convex=True, m=0)
+    else:
+        p = gen_feasible_problem(rng, convex=convex)
     extra = {}
     if rng.random() < 0.5:
         # non-default switches of the line-search solvers (keys a stack does not have are ignored)
         extra.update(eager=str(rng.choice([0, 1, 1])), recomp=str(rng.choice([0, 0, 1])),
                      updcand=str(rng.choice([0, 0, 1])), updprox=str(rng.choice([0, 0, 1])))
-    if rng.random() < 0.2:
+    if rng.random() < 0.2 and not cnewton:
         # isotropic family: f = q/2·‖x‖² + cᵀx (no quartic term), few / no general constraints, and a
         # user Lipschitz estimate L_0 = Lγ_factor·q, so that the *rejected* first step x̂(1/q) of the
         # initial step-size backtracking is the exact box-constrained minimiser (ψ has curvature q)
@@ -97,9 +116,55 @@ def gen_alm_op(rng, stack=None, **over):
                'maxmult': f2h(rng.choice([1e9, 1e9, 1e9, 4.0, 1.0, 0.25])), **extra})
     if stack == 'fista':
         op['maxiter'] = '5000'
+    # ---- every parameter the ALM loop / the inner solvers read, non-default values included ---------------
+    if rng.random() < 0.5:
+        op['inittol'] = f2h(rng.choice([1.0, 1e-1, 1e-3, tol, tol / 4]))       # incl. below the final tolerance
+    if rng.random() < 0.5:
+        op['tolfac'] = f2h(rng.choice([0.1, 0.5, 0.01, 1.0]))
+    if rng.random() < 0.4:
+        op['maxpen'] = f2h(rng.choice([1e9, 1e4, 64.0, 4.0]))                  # small: the penalty saturates
+    if rng.random() < 0.4:
+        op['minpen'] = f2h(rng.choice([1e-9, 1e-2, 1.0, 4.0]))
+        if op.flt('minpen') > (op.flt('maxpen') if 'maxpen' in op else 1e9):
+            op['minpen'] = op['maxpen']
+    if p['m'] and rng.random() < 0.3:
+        op['split'] = str(rng.randint(1, p['m']))                                # rows < split: penalty only
+    if stack != 'fista' and rng.random() < 0.3:
+        op['Lmin'] = f2h(rng.choice([1e-5, 1e-2, 1.0]))
+    if rng.random() < 0.3:
+        op['Lmax'] = f2h(rng.choice([1e20, 1e6, 1e3]))
+    if stack.startswith(('panoc-', 'zerofpr-')) and rng.random() < 0.3:
+        op['force'] = str(rng.choice([0, 1]))
+    if stack.endswith(('-snewton', '-cnewton')):
+        op['hessfull'] = '1'
+    if stack == 'pantr-newtontr':
+        # exact ∇²ψ·v (needs the full second-order oracle) or finite differences
+        fd = rng.choice([0, 1])
+        op['fd'] = str(fd)
+        op['hessfull'] = '1' if fd == 0 else str(rng.choice([0, 1]))
     for k, v in over.items():
         op[k] = str(v)
     return op
+
+
+def gen_kkt_op(rng):
+    """compute_kkt_error at an arbitrary point (no solve): x inside / on the boundary of / outside C, y of
+    either sign on every kind of row, g(x) inside / outside D."""
+    p = gen_feasible_problem(rng, convex=rng.random() < 0.5)
+    n, m = p['n'], p['m']
+    x = []
+    for i in range(n):
+        lo, hi = p['Clb'][i], p['Cub'][i]
+        k = rng.random()
+        if k < 0.25 and lo != -INF:
+            x.append(lo - rng.choice([0.0, 0.0, 0.5, 2.0]))
+        elif k < 0.5 and hi != INF:
+            x.append(hi + rng.choice([0.0, 0.0, 0.5, 2.0]))
+        else:
+            x.append(S.dy(rng, -3, 3))
+    y = [rng.choice([0.0, S.dy(rng, -3, 3), S.dy(rng, -3, 3)]) for _ in range(m)]
+    return S.Op({'_op': 'alm', 'stack': 'none', 'mode': 'kkt', **S.problem_kv(p), 'x0': S.kvvec(x),
+                 'y0': S.kvvec(y), 'Sig': S.kvvec([1.0] * m), 'tol': f2h(1e-6), 'dtol': f2h(1e-6), 'hess': '0'})
 
 
 def parse_alm_out(line):
@@ -159,20 +224,43 @@ def monitor(op_line, out_line, st):
     r = parse_alm_out(out_line)
     st.setdefault('status', {}).setdefault(r['status'], 0)
     st['status'][r['status']] += 1
-    if r['status'] != 'Converged':
-        return None
+    stack = op['stack']
+    bump('runs'); bump('stack ' + stack + (' fd=' + op['fd'] if stack == 'pantr-newtontr' else ''))
+    bump('status ' + r['status'])
+    for k in ('inittol', 'tolfac', 'maxpen', 'minpen', 'split', 'Lmin', 'Lmax', 'force', 'singlepen', 'usesig'):
+        if k in op and not (k in ('singlepen', 'usesig', 'force') and op[k] == '0'):
+            bump('parameter varied: ' + k)
+            if r['status'] == 'Converged':
+                bump('parameter varied: ' + k + ' (Converged)')
     ex = S.Exact(op)
     x, y = r['x'], r['y']
     tol, dtol = op.flt('tol'), op.flt('dtol')
-    if any(not math.isfinite(a) for a in x + y):
+    finite = all(math.isfinite(a) for a in x + y)
+    if r['status'] == 'Converged' and not finite:
         return f'Converged with non-finite x / y: {x} {y}'
+    # the library's KKT-error utility is a pure function of (x, y): checked on every run, whatever the status
+    if not finite:
+        bump('kkt utility not compared: non-finite x / y (status ' + r['status'] + ')')
+    elif max([abs(a) for a in x + y]) > 1e70:
+        # the harness's own binary64 evaluation of the quartic test problem overflows there (x⁴, 0·inf = NaN
+        # in PolyProblem::eval_g): nothing can be said about the utility from these numbers
+        bump('kkt utility not compared: |x|, |y| > 1e70, the polynomial test problem overflows in binary64 '
+             '(status ' + r['status'] + ')')
+    else:
+        m = kkt_utility_monitor(ex, x, y, r['kkt'])
+        if m:
+            return f'[{stack}, status {r["status"]}] {m}'
+        bump('kkt utility compared (4 numbers), status ' + ('Converged' if r['status'] == 'Converged' else 'other'))
+        if op.get('mode') == 'kkt':
+            bump('kkt utility at an arbitrary point (no solve)')
+    if r['status'] != 'Converged':
+        return None
     for i in range(ex.n):
         if x[i] < ex.Clb[i] or x[i] > ex.Cub[i]:
             e = 4 * math.ulp(max(abs(x[i]), 1e-300))
             if x[i] < ex.Clb[i] - e or x[i] > ex.Cub[i] + e:
                 return f'Converged with x[{i}]={x[i]!r} outside C=[{ex.Clb[i]},{ex.Cub[i]}]'
     stat, viol, pg, scale, gx = kkt_residuals(ex, x, y)
-    stack = op['stack']
     # rounding margin of the solver's own residual evaluation: a few 1e-9 of the gradient scale
     marg_s = tol * 1e-6 + 4e-9 * scale * tol / max(tol, 1e-8) * 1e-3 + 1e-12 * scale
     if float(stat) > tol + marg_s:
@@ -192,21 +280,73 @@ def monitor(op_line, out_line, st):
             if ex.Dlb[j] == -INF or abs(gj - Fr(ex.Dlb[j])) > dtol + 1e-12 * gs:
                 return (f'[{stack}] y[{j}]={y[j]!r} < 0 but g_{j}(x)={float(gj)!r} is not within the dual '
                         f'tolerance of its lower bound {ex.Dlb[j]}')
-    # the library's KKT-error utility reports the same numbers
-    ks, kv = r['kkt'][0], r['kkt'][1]
-    if abs(kv - float(viol)) > 64 * S.EPS * gs * (ex.n + 2):
-        return f'compute_kkt_error.constr_violation={kv!r} but dist∞(g(x), D)={float(viol)!r}'
-    if abs(ks - float(pg)) > 256 * S.EPS * scale * (ex.n + ex.m + 2):
-        return f'compute_kkt_error.stationarity={ks!r} but ‖Π_C(x−∇L)−x‖∞={float(pg)!r}'
+    # "the library's own KKT-error utility reports the same numbers": on a Converged result its numbers are
+    # within the tolerances too (stationarity is the γ = 1 projected-gradient residual ≤ the normal-cone
+    # distance, Props/C01.kktError_sound; constr_violation is the same number)
+    ks, kv, kc, kb = r['kkt']
     if float(pg) > float(stat) + 1e-12 * scale:
         return 'projected-gradient residual exceeds the normal-cone distance (monitor self-check)'
+    if ks > tol + marg_s or kv > dtol + 1e-12 * gs:
+        return (f'[{stack}] Converged but compute_kkt_error reports stationarity {ks!r} (tolerance {tol:g}), '
+                f'constr_violation {kv!r} (dual tolerance {dtol:g})')
+    if kb != 0 and kb > 4 * S.EPS * max(abs(a) for a in x):
+        return f'[{stack}] Converged but compute_kkt_error.bounds_violation = {kb!r}'
+    if abs(ks - float(stat)) > marg_s + 1e-3 * tol:
+        bump('Converged: utility stationarity < normal-cone distance (interior point next to a bound)')
+    bump('certificate checked (Converged)')
+    return None
+
+
+def kkt_utility_monitor(ex, x, y, K):
+    """All four numbers of compute_kkt_error against exact recomputation from the problem data."""
+    n, m = ex.n, ex.m
+    X, Y = S.frv(x), S.frv(y)
+    try:
+        gf = ex.grad_f(X); gg = ex.grad_g_prod(X, Y)
+        gL = [gf[i] + gg[i] for i in range(n)]
+        pg = max([abs(ex.proj(X[i] - gL[i], ex.Clb[i], ex.Cub[i]) - X[i]) for i in range(n)], default=Fr(0))
+        gx = ex.g(X)
+        e = [gx[j] - ex.proj(gx[j], ex.Dlb[j], ex.Dub[j]) for j in range(m)]
+        viol = max([abs(a) for a in e], default=Fr(0))
+        comp = max([abs(Y[j] * e[j]) for j in range(m)], default=Fr(0))
+        bnd = max([abs(ex.proj(X[i], ex.Clb[i], ex.Cub[i]) - X[i]) for i in range(n)], default=Fr(0))
+        # rounding scale of the library's binary64 evaluation: the magnitudes of the *terms* that are summed
+        # (∇g·y cancels heavily when the multipliers are large), from the problem data and (x, y) alone
+        aX, aY = [abs(a) for a in X], [abs(a) for a in Y]
+        terms = [sum(abs(ex.Q[i * n + j] + ex.Q[j * n + i]) / 2 * aX[j] for j in range(n)) + abs(ex.c[i])
+                 + abs(ex.q4[i]) * aX[i] ** 3
+                 + sum((abs(ex.A[j * n + i]) + abs(ex.b[j]) * aX[i]) * aY[j] for j in range(m)) for i in range(n)]
+        scale = max([float(t) for t in terms] + [abs(a) for a in x] + [1.0])
+        xx = sum(a * a for a in aX)
+        gs = max([float(sum(abs(ex.A[j * n + i]) * aX[i] for i in range(n)) + abs(ex.b[j]) * xx / 2)
+                  for j in range(m)] + [1.0])
+        ymax = max([abs(a) for a in y] + [1.0])
+        pg, viol, comp, bnd = float(pg), float(viol), float(comp), float(bnd)
+    except OverflowError:
+        bump('kkt utility not compared: exact value overflows binary64')
+        return None
+    ks, kv, kc, kb = K
+    if any(a != a for a in K):
+        return f'compute_kkt_error reports NaN {K} for finite x, y (the problem has a box C)'
+    if abs(ks - pg) > 256 * S.EPS * scale * (n + m + 2):
+        return f'compute_kkt_error.stationarity={ks!r} but ‖Π_C(x−∇L)−x‖∞={pg!r}'
+    if abs(kv - viol) > 64 * S.EPS * gs * (n + 2):
+        return f'compute_kkt_error.constr_violation={kv!r} but dist∞(g(x), D)={viol!r}'
+    if abs(kc - comp) > 64 * S.EPS * gs * (n + 2) * ymax:
+        return f'compute_kkt_error.complementarity={kc!r} but max_j |y_j·(g_j − Π_D(g)_j)|={comp!r}'
+    if abs(kb - bnd) > 4 * S.EPS * max([abs(a) for a in x] + [0.0]):
+        return f'compute_kkt_error.bounds_violation={kb!r} but ‖Π_C(x)−x‖∞={bnd!r}'
+    if comp > 0:
+        bump('kkt utility: complementarity > 0')
+    if bnd > 0:
+        bump('kkt utility: bounds_violation > 0')
     return None
 
 
 def nontrivial(op_line, out_line):
     r = parse_alm_out(out_line) if out_line.startswith('A ') else None
     if r and r['status'] == 'Converged' and r['inner_iters'] >= 1:
-        return hash(op_line)
+        return op_line
     return None
 
 
@@ -217,31 +357,56 @@ def main(argv):
         ops = []
         for k in range(n):
             ops.append(gen_alm_op(rng, stack=STACKS[k % len(STACKS)]).line())
+        for k in range(max(60, n // 10)):
+            ops.append(gen_kkt_op(rng).line())
         return ops
+
+    def extra_stage(rep, broken, exe_, tier):
+        rep.cov['monitor_counts'] = dict(sorted(COUNTS.items()))
+        if not COUNTS.get('runs'):
+            return
+        required = ['stack ' + s for s in STACKS if s != 'pantr-newtontr'] + \
+            ['stack pantr-newtontr fd=0', 'stack pantr-newtontr fd=1', 'stack fista'] + \
+            ['parameter varied: ' + k for k in ('inittol', 'tolfac', 'maxpen', 'minpen', 'split', 'Lmin', 'Lmax',
+                                                'force', 'singlepen', 'usesig')] + \
+            ['parameter varied: split (Converged)', 'kkt utility compared (4 numbers), status Converged',
+             'kkt utility compared (4 numbers), status other', 'kkt utility: complementarity > 0',
+             'kkt utility: bounds_violation > 0', 'kkt utility at an arbitrary point (no solve)',
+             'certificate checked (Converged)']
+        for k in required:
+            if not COUNTS.get(k):
+                broken.append(f'required coverage class never exercised in this run: {k!r}')
 
     return C.standard_check(
         'C01', argv,
-        gen_scripts=['gen_c15.py', 'gen_c06.py', 'gen_c05.py', 'gen_c07.py', 'gen_c04.py'],
+        gen_scripts=['gen_c15.py', 'gen_c06.py', 'gen_c05.py', 'gen_c07.py', 'gen_c04.py', 'gen_c01.py'],
         modules=['Alpaqa.Props.C01', 'Alpaqa.Props.C01_Alm'], driver=None,
-        extra_sources=['Alpaqa/Gen/C15.lean', 'Alpaqa/Gen/C06.lean', 'Alpaqa/Proofs/VecLemmas.lean',
+        extra_sources=['Alpaqa/Gen/C15.lean', 'Alpaqa/Gen/C06.lean', 'Alpaqa/Gen/C01.lean', 'Alpaqa/Proofs/VecLemmas.lean',
                        'Alpaqa/Proofs/C01Panoc.lean', 'Alpaqa/Proofs/PanocFuel.lean', 'Alpaqa/Proofs/PanocSized.lean', 'Alpaqa/Proofs/C07.lean', 'Alpaqa/Proofs/C07Run.lean',
                        'Alpaqa/Proofs/PanocInv.lean', 'Alpaqa/Model/Panoc.lean', 'Alpaqa/Model/C07.lean'],
         harness_name='almrun', harness_sources=[], harness_builder=lambda: (exe, log),
-        gen_ops=gen_ops, monitor=monitor, nontrivial=nontrivial,
+        gen_ops=gen_ops, monitor=monitor, nontrivial=nontrivial, extra_stage=extra_stage,
         n_quick=120, n_thorough=12000,
         trusted_base=[
             'Lean 4.33 kernel + Mathlib (axioms: propext, Classical.choice, Quot.sound)',
-            'translators gen_c15 (projection step kernel) and gen_c06 (ApproxKKT formula, status chain)',
+            'translators gen_c15 (projection step kernel) and gen_c06 (ApproxKKT formula, status chain), gen_c01 '
+            '(compute_kkt_error: statement-pattern translation, every statement pinned in order)',
             'composition with Props/C03 (write-back), C04 (ŷ / err_z closed forms), C06 (Converged ⇔ ε ≤ tol), '
             'C07 (ALM termination) — each tied separately; the end-to-end statement is monitored on the '
-            'real ALMSolver over all ten stacks',
+            'real ALMSolver over all fifteen stack variants',
             'theorems are over ordered fields; the rounding gap of binary64 is measured by the monitor '
             '(margin ≈ 1e-9·gradient scale), not proved',
         ],
         assumptions=['polynomial test problems with dyadic data; exact rational re-evaluation in Python'],
-        rule='seeded random ALM runs, stacks cycled over all ten, convex (70%) and nonconvex polynomial '
+        rule='seeded random ALM runs, stacks cycled over PANOC / ZeroFPR × {L-BFGS, structured L-BFGS, Anderson, no-op, '
+             'StructuredNewton, ConvexNewton (m = 0, convex)}, PANTR Newton-TR (finite differences and exact Hessian-'
+             'vector products), FISTA; convex (70%) and nonconvex polynomial '
              'problems n≤4, m≤3 with a feasible point, equality / one-sided / range / free rows, mixed '
-             'finite/infinite/equal variable bounds, tolerances 1e-4..1e-8, user or default penalties; '
+             'finite/infinite/equal variable bounds, tolerances 1e-4..1e-8, user or default penalties, '
+             'initial_tolerance (incl. below tolerance), tolerance_update_factor, max_penalty (incl. saturating), '
+             'min_penalty, penalty_alm_split, single_penalty_factor, max_multiplier, inner L_min / L_max, '
+             'force_linesearch, eager / recompute / update switches (required-coverage list enforced per run); '
+             'compute_kkt_error compared (4 numbers) on every run with finite outputs and at arbitrary points (x in / on / outside C, no solve); '
              'non-trivial = Converged after ≥ 1 inner iteration; distinct by op line',
     )
 
